@@ -30,6 +30,11 @@ func genbankFieldNameParser(q interface{}, depth int) pars.Parser {
 		}
 		name := string(result.Token)
 		indentLength := depth - len(name)
+		if indentLength < 0 {
+			state.Clear()
+			what := fmt.Sprintf("field name `%s` is wider than the indent", name)
+			return pars.NewError(what, state.Position())
+		}
 		indentParser := pars.String(strings.Repeat(" ", indentLength))
 		paddingParser := pars.Any(indentParser, pars.Dry(pars.EOL))
 		if paddingParser(state, pars.Void) != nil {
@@ -302,7 +307,7 @@ func genbankReferenceParser(gb *GenBank, depth int) pars.Parser {
 
 		ref := Reference{Number: result.Value.(int)}
 
-		paddingLength := 3 - len(strconv.Itoa(ref.Number))
+		paddingLength := gts.Max(0, 3-len(strconv.Itoa(ref.Number)))
 		paddingParser := pars.String(strings.Repeat(" ", paddingLength))
 		paddingParser(state, pars.Void)
 		pars.Line(state, result)
